@@ -188,4 +188,3 @@ func (t *termTable) termList(hs []hash) string {
 	}
 	return strings.Join(parts, ";")
 }
-
